@@ -79,7 +79,7 @@ def regen() -> t.Dict[str, dict]:
     """Regenerate coq/gen/*.v from /repo's current source."""
     from . import consts
 
-    st = kernels.generate(kernel_table.KERNELS)
+    st = kernels.generate()
     st.update(consts.generate())
     return st
 
@@ -161,7 +161,7 @@ def compile_properties(prop: str, timeout: int = 900) -> dict:
 
 def forbidden_scan() -> t.List[str]:
     hits = []
-    for rel in coq_files() + ["Extract/Extract.v"]:
+    for rel in coq_files():
         path = os.path.join(COQ, rel)
         depth = 0
         in_comment = 0
@@ -189,22 +189,28 @@ def forbidden_scan() -> t.List[str]:
 # ---------------------------------------------------------------------------------------------
 # Extracted model
 # ---------------------------------------------------------------------------------------------
-def ensure_modelrun(timeout: int = 900) -> t.Tuple[bool, str]:
-    """(Re)build build/modelrun when Model/Units.vo is newer than it."""
-    units_vo = os.path.join(COQ, "Model", "Units.vo")
-    binp = os.path.join(BUILD, "modelrun")
+def modelrun_path(area: str = "core") -> str:
+    return os.path.join(BUILD, f"modelrun_{area}")
+
+
+def ensure_modelrun(area: str = "core", timeout: int = 900) -> t.Tuple[bool, str]:
+    """(Re)build build/modelrun_<area> from Model/Units_<area>.vo when that is newer."""
+    units_vo = os.path.join(COQ, "Model", f"Units_{area}.vo")
+    binp = modelrun_path(area)
     drv = os.path.join(VERIF, "ocaml", "driver.ml")
     if not os.path.exists(units_vo):
-        return False, "Model/Units.vo missing"
+        return False, f"Model/Units_{area}.vo missing"
     if os.path.exists(binp) and os.path.getmtime(binp) >= max(os.path.getmtime(units_vo), os.path.getmtime(drv)):
         return True, "up to date"
-    mld = os.path.join(BUILD, "ml")
+    mld = os.path.join(BUILD, f"ml_{area}")
     os.makedirs(mld, exist_ok=True)
-    rc, out = sh(["coqc", "-Q", COQ, "V", os.path.join(COQ, "Extract", "Extract.v")], timeout, cwd=mld)
+    # Extraction file: only ExtrOcamlBasic's directives; Z, positive, nat, string, ascii stay Coq inductives.
+    with open(os.path.join(mld, "Extract.v"), "w") as fh:
+        fh.write(f"From V Require Import Model.Units_{area}.\nRequire Import ExtrOcamlBasic.\n"
+                 "Extraction Language OCaml.\nExtraction \"model.ml\" run.\n")
+    rc, out = sh(["coqc", "-Q", COQ, "V", "Extract.v"], timeout, cwd=mld)
     if rc != 0:
         return False, "extraction failed: " + out[-800:]
-    for junk in glob.glob(os.path.join(COQ, "Extract", "Extract.vo*")) + glob.glob(os.path.join(COQ, "Extract", "*.glob")):
-        pass
     with open(os.path.join(mld, "driver.ml"), "w") as fh:
         fh.write(open(drv).read())
     rc, out = sh(["ocamlfind", "ocamlopt", "-O3", "-w", "-a", "-o", binp + ".new", "model.mli", "model.ml", "driver.ml"], timeout, cwd=mld)
@@ -214,11 +220,11 @@ def ensure_modelrun(timeout: int = 900) -> t.Tuple[bool, str]:
     return True, "rebuilt"
 
 
-def run_model(cases: t.Sequence[t.Tuple[str, str]], timeout: int = 900, shards: int = 8) -> t.List[str]:
+def run_model(cases: t.Sequence[t.Tuple[str, str]], timeout: int = 900, shards: int = 8, area: str = "core") -> t.List[str]:
     """cases: (unit, value-text). Returns the model's output text per case (in order)."""
     if not cases:
         return []
-    binp = os.path.join(BUILD, "modelrun")
+    binp = modelrun_path(area)
     shards = max(1, min(shards, len(cases) // 200 + 1))
     chunks = [cases[i::shards] for i in range(shards)]
     procs = []
